@@ -856,7 +856,7 @@ class Name:
         """
 
         if self.is_subdomain(origin):
-            return Name(self[: -len(origin)])
+            return Name(self.labels[: len(self.labels) - len(origin)])
         else:
             return self
 
